@@ -184,3 +184,32 @@ def container(c):
 
 def definition(d):
     return ["def", S(d.root_container_name), [container(c) for c in d.containers.values()]]
+
+
+# ---------------------------------------------------------------------------------------------------
+# the loaded object graph by name (mirrors Driver/OpsXml.lean showLDef)
+def lptype(t):
+    from space_packet_parser.xtce import parameter_types as pt
+    en = []
+    if isinstance(t, pt.EnumeratedParameterType):
+        en = [[V(k), S(v)] for k, v in t.enumeration.items()]
+    return ["lpt", S(type(t).__name__), S(t.name), optS(t.unit), encoding(t.encoding), en,
+            optS(getattr(t, "epoch", None)), optS(getattr(t, "offset_from", None))]
+
+
+def lparam(p):
+    return ["lp", S(p.name), S(p.parameter_type.name), optS(p.short_description), optS(p.long_description)]
+
+
+def lcontainer(c):
+    from space_packet_parser.xtce import containers as cont
+    ents = [["c", S(e.name)] if isinstance(e, cont.SequenceContainer) else ["p", S(e.name)] for e in c.entry_list]
+    return ["lc", S(c.name), ents, optS(c.short_description), optS(c.long_description), optS(c.base_container_name),
+            [criterion(r) for r in c.restriction_criteria], B(c.abstract), [S(n) for n in c.inheritors]]
+
+
+def ldef(d):
+    nsmap = [["-" if k is None else S(k), S(v)] for k, v in (d.ns or {}).items()]
+    return ["ldef", S(d.root_container_name), optS(d.date), optS(d.space_system_name), optS(d.xtce_ns_prefix), nsmap,
+            [lptype(t) for t in d.parameter_types.values()], [lparam(p) for p in d.parameters.values()],
+            [lcontainer(c) for c in d.containers.values()]]
